@@ -56,7 +56,7 @@ LEVEL = {
             "reference walk (document order, pruning, dominance tables, NotImplementedError rule).", "R7 (mc/ref/validation.py); the node's own "
             "evaluation is taken from the real evaluate_ahb_expression_tree"),
     "C14": ("Every tree shape up to 4 (5) nodes x every labelling containing SOLL x both flags: flag run == run on the rewritten AHB (both flags), "
-            "three entry points, plus call sequences in one context. Metamorphic, no expected values.", "R5 for the rewriting"),
+            "four entry points (deep, segment level on a group and on a segment root, segment), plus call sequences in one context. Metamorphic, no expected values.", "R5 for the rewriting"),
     "C15": ("All completion orders for AHBs with 2-3 free-text elements in 7 layouts, shared FC key, package-delivered FCs, shipped constraints, "
             "ambient context preset: every element's result equals its solo validation and echoes its own input.", "mc/vloop.py"),
     "C16": ("Fault enumeration: every non-empty SUBSET of fault sites (nodes and pool entries) of every tree shape up to 4 (5) nodes carries one of 9 "
